@@ -46,7 +46,7 @@ MINIMA = {'local_valid_opening_accepted': 3000, 'local_invalid_opening_refused':
           'next_id_exhausted_checked': 100, 'peer_fresh_opening_accepted': 3000, 'peer_wrong_parity_judged': 300,
           'peer_skipped_id_judged': 300, 'peer_reset_id_stream_error': 300, 'peer_ended_id_conn_error': 300,
           'priority_neutrality_checked': 2000, 'opening_after_priority_on_higher_id': 300,
-          'wire_openings_checked': 3000, 'failed_opening_id_unused_checked': 300, 'classified_after_cleanup': 300, 'classified_while_saturated': 100}
+          'wire_openings_checked': 3000, 'failed_opening_id_unused_checked': 300, 'failed_opening_with_skipping_id_checked': 100, 'refused_promise_id_recorded': 100, 'classified_after_cleanup': 300, 'classified_while_saturated': 100}
 EXHAUSTIVE = {}
 
 TOP = 2 ** 31 - 1
@@ -450,6 +450,29 @@ def run_case(idx, rng, tier, rep):
         rep.count('peer_fresh_opening_accepted')
         apply_fate(y, 'P')
 
+    def p_push_on_locally_reset_parent():
+        """A PUSH_PROMISE that was in flight when E reset the parent: the promised stream is refused (RST_STREAM, no event) and its
+        id counts as used by the peer and as reset, so later frames on it are stream errors too."""
+        if not e_client or sat_blocked():
+            return
+        c = [s for s, v in used.items() if v['by'] == 'E' and v['fate'] == 'rst_e']
+        y = pick_fresh('P')
+        if not c or y is None:
+            return
+        par = rng.choice(sorted(c))
+        if rng.random() < 0.5:
+            h.cleanup()
+        steps.append(('P-push-on-locally-reset-parent', par, y))
+        res = h.send(wire.build_push_promise(par, y, hb(REQ)))
+        st['judged'] = True
+        rsts = [f for f in res.frames if f.type == wire.RST_STREAM and f.stream_id == y]
+        if res.exc is not None or len(rsts) != 1 or res.events:
+            return fail('C09:promise-on-locally-reset-parent-not-refused',
+                        'exc %r frames %s events %s' % (res.exc, [f.brief() for f in res.frames], [type(e).__name__ for e in res.events]))
+        used[y] = {'by': 'P', 'fate': 'rst_e'}
+        hi['P'] = y
+        rep.count('refused_promise_id_recorded')
+
     def priority_step():
         kinds = ['idle_p', 'idle_e', 'used', 'top', 'skipped']
         k = rng.choice(kinds)
@@ -545,9 +568,11 @@ def run_case(idx, rng, tier, rep):
 
     def e_open_failing_for_other_reason():
         """A well-chosen id but an invalid header list: the call raises, so the id was not used."""
-        x = model_next()
-        if x > TOP:
+        # the id the call names: usually the next one, sometimes one that skips ahead (user-chosen ids need not be contiguous)
+        x = model_next() if rng.random() < 0.5 else pick_fresh('E')
+        if x is None or x > TOP:
             return
+        expect_next = model_next()
         bad = rng.choice(BAD_HEADERS)
         if e_client:
             steps.append(('E-open-bad-headers', x))
@@ -574,12 +599,18 @@ def run_case(idx, rng, tier, rep):
             got = t.c.get_next_available_stream_id()
         except Exception as e:      # noqa
             got = type(e).__name__
-        if got != x:
+        if got != expect_next:
             return fail('C09:failed-opening-consumed-id:%s' % what,
                         '%s(%d) raised %r and emitted nothing, yet get_next_available_stream_id() moved from %d to %r' %
-                        (what, x, r.exc, x, got))
-        if rng.random() < 0.6:
+                        (what, x, r.exc, expect_next, got))
+        if x != expect_next:
+            rep.count('failed_opening_with_skipping_id_checked')
+        r0 = rng.random()
+        if r0 < 0.4:
             e_open(x, True, 'retry-after-failed-opening')
+        elif r0 < 0.7 and x != expect_next:
+            # every unused id between the last used one and the refused one is still free
+            e_open(rng.randrange(expect_next, x, 2), True, 'id-below-a-refused-opening')
 
     check_next()
     nsteps = rng.randrange(6, 40)
@@ -607,7 +638,10 @@ def run_case(idx, rng, tier, rep):
             else:
                 e_open_invalid()
         elif op == 'p_valid':
-            p_open_valid()
+            if e_client and rng.random() < 0.2:
+                p_push_on_locally_reset_parent()
+            else:
+                p_open_valid()
         elif op == 'p_invalid':
             p_open_invalid()
         elif op == 'priority':
